@@ -76,15 +76,36 @@ func runPlan(w *world, sc *Scenario) *run {
 			}
 			wg.Wait()
 		}
+		// degenerate: the write finished without passing db.put.prenotify (an operation
+		// that succeeded without notifying, or one that failed early). The plan cannot
+		// be forced; the rest of the history is executed unparked and judged as usual.
+		bypassed := false
+		degenerate := func() {
+			bypassed = true
+			w.parks.note("bypassed")
+			if p.Template == "E" {
+				if target.subscribe(r) {
+					target.startReader()
+				}
+			} else if target.CancelCall == 0 {
+				target.cancel()
+			}
+			during()
+			doW0(p.After)
+		}
 		switch p.Template {
 		case "A": // Cancel completes while a writer is parked before notifying
 			subscribeAll(0)
 			doW0(p.Warm)
 			pw := w.parks.arm("db.put.prenotify", parkedKey, "writer")
 			parkedWrite()
-			if !pw.waitReached(watchdog) {
-				r.inconclusive("yield point db.put.prenotify was not reached")
+			if ok, skipped := pw.waitReachedOr(writeDone, watchdog); !ok {
 				bail(pw)
+				if skipped {
+					degenerate()
+				} else {
+					r.inconclusive("yield point db.put.prenotify was not reached")
+				}
 				break
 			}
 			target.cancel()
@@ -115,9 +136,13 @@ func runPlan(w *world, sc *Scenario) *run {
 			pw := w.parks.arm("db.put.prenotify", parkedKey, "writer")
 			pc := w.parks.arm("db.sub.cancel", "", "canceller")
 			parkedWrite()
-			if !pw.waitReached(watchdog) {
-				r.inconclusive("yield point db.put.prenotify was not reached")
+			if ok, skipped := pw.waitReachedOr(writeDone, watchdog); !ok {
 				bail(pw, pc)
+				if skipped {
+					degenerate()
+				} else {
+					r.inconclusive("yield point db.put.prenotify was not reached")
+				}
 				break
 			}
 			asyncCancel()
@@ -147,9 +172,13 @@ func runPlan(w *world, sc *Scenario) *run {
 			doW0(p.Warm)
 			pw := w.parks.arm("db.put.prenotify", parkedKey, "writer")
 			parkedWrite()
-			if !pw.waitReached(watchdog) {
-				r.inconclusive("yield point db.put.prenotify was not reached")
+			if ok, skipped := pw.waitReachedOr(writeDone, watchdog); !ok {
 				bail(pw)
+				if skipped {
+					degenerate()
+				} else {
+					r.inconclusive("yield point db.put.prenotify was not reached")
+				}
 				break
 			}
 			if target.subscribe(r) {
@@ -161,6 +190,7 @@ func runPlan(w *world, sc *Scenario) *run {
 			wg.Wait()
 			doW0(p.After)
 		}
+		r.bypassed = bypassed
 		if p.Double && target.CancelCall != 0 && target.Cancel2Call == 0 {
 			target.cancelAgain()
 		}
